@@ -254,9 +254,11 @@ Record resolved := { rs_opt : option optref; rs_index : Z; rs_diags : list diag 
 (* the loop of cfg_getopt_secidx; `steps` is the section path walked so far (reversed) *)
 Fixpoint secidx_loop (fuel : nat) (root sec : cfg) (steps : list (nat * nat)) (name : str)
          (want_index : bool) (last : option optref) (index : Z) : resolved :=
+  (* the `malformed:` exit: reported like an unknown option *)
+  let mal := if cflag root CFGF_IGNORE_UNKNOWN then [] else cfg_diag root "no such option '%s'" in
   let finish (name : str) :=
     if want_index then {| rs_opt := last; rs_index := index; rs_diags := [] |}
-    else match name with [] => {| rs_opt := None; rs_index := index; rs_diags := [] |} | _ =>
+    else match name with [] => {| rs_opt := None; rs_index := index; rs_diags := mal |} | _ =>
          match getopt_leaf sec name with
          | Some i => {| rs_opt := Some (rev steps, i); rs_index := index; rs_diags := [] |}
          | None => {| rs_opt := None; rs_index := index;
@@ -272,7 +274,7 @@ Fixpoint secidx_loop (fuel : nat) (root sec : cfg) (steps : list (nat * nat)) (n
       let len := strcspn name is_bar_eq in
       let after := skipn len name in
       if negb want_index && match after with [] => true | _ => false end then finish name
-      else if Nat.eqb len 0 then {| rs_opt := None; rs_index := index; rs_diags := [] |}
+      else if Nat.eqb len 0 then {| rs_opt := None; rs_index := index; rs_diags := mal |}
       else
         let secname := firstn len name in
         (* the do { } while (0) block: (opt index if a section option, i, title, name', len') *)
@@ -335,7 +337,7 @@ Fixpoint secidx_loop (fuel : nat) (root sec : cfg) (steps : list (nat * nat)) (n
             let name3 := skipn nbars name2 in
             let garbage := match name2 with c :: _ => negb (is_bar c) | [] => false end in
             let trailing := match name3 with [] => negb (Nat.eqb nbars 0) | _ => false end in
-            if garbage || trailing then {| rs_opt := None; rs_index := index'; rs_diags := [] |}
+            if garbage || trailing then {| rs_opt := None; rs_index := index'; rs_diags := mal |}
             else secidx_loop fuel' root s ((k, v) :: steps) name3 want_index (Some (rev steps, k)) index'
         end
     end
